@@ -28,7 +28,13 @@ def tokens() -> dict[str, bytes]:
     st = bytearray(ref_ash.stuff(good))
     idx = next(i for i, b in enumerate(st) if i > 0 and b not in ref_ash.RESERVED and (b ^ 0x20) not in ref_ash.RESERVED and st[i - 1] != ref_ash.ESC)
     badesc = bytes(st[:idx]) + bytes([ref_ash.ESC, st[idx] ^ 0x20]) + bytes(st[idx + 1:])
+    # a valid stuffed frame with one extra ESC inserted directly before one of its escape sequences (ESC ESC x):
+    # the first ESC escapes the second one, whose complement 0x5D is not reserved -> invalid escape
+    st1 = next(x for x in (ref_ash.stuff(ref_ash.enc_data(0, 0, 0, P3 + bytes([v]))) for v in range(256)) if ref_ash.ESC in x)
+    k = st1.index(bytes([ref_ash.ESC]))
+    dblesc = bytes(st1[:k]) + bytes([ref_ash.ESC]) + bytes(st1[k:])
     return {
+        "DBLESC": dblesc,
         "FLAG": b"\x7e", "ESC": b"\x7d", "XON": b"\x11", "XOFF": b"\x13", "SUB": b"\x18", "CAN": b"\x1a",
         "5E": b"\x5e", "5D": b"\x5d", "31": b"\x31", "33": b"\x33", "ORD": b"\x42",
         "ACK0": _body(ref_ash.enc_ack(0)),
@@ -46,7 +52,7 @@ def tokens() -> dict[str, bytes]:
 TOK = tokens()
 # the same frame bodies already terminated by their flag byte, so that a stream of k
 # tokens can hold k complete frames
-for _n in ["ACK0", "DATA0", "DATA1", "DATA0r", "DATA3", "RSTACK", "ERROR", "BADCRC", "BADESC"]:
+for _n in ["ACK0", "DATA0", "DATA1", "DATA0r", "DATA3", "RSTACK", "ERROR", "BADCRC", "BADESC", "DBLESC"]:
     TOK[_n + "~"] = TOK[_n] + b"\x7e"
 TOK["DATA2~"] = _body(ref_ash.enc_data(2, 0, 0, P3)) + b"\x7e"
 NAMES = list(TOK)
@@ -370,7 +376,7 @@ def main(tier: str) -> int:
     rep.coverage = {
         "evaluations": feeds + lf + mf + cf,
         "distinct_nontrivial": len(nontrivial),
-        "rule": f"all streams of <= {depth} tokens over a 30-token alphabet (6 reserved bytes, 4 escape complements, 1 ordinary byte, 9 frame bodies incl. bad CRC / bad escape without flag, 10 flag-terminated frames) "
+        "rule": f"all streams of <= {depth} tokens over a 32-token alphabet (6 reserved bytes, 4 escape complements, 1 ordinary byte, 10 frame bodies incl. bad CRC / bad escape / doubled escape without flag, 11 flag-terminated frames) "
                 "x chunkings (all 2^(n-1) for n <= 12 bytes, else whole + bytewise + every single cut; thorough adds every pair of cuts); all 2-byte streams from each of the 8 expected-number states and 3-byte streams over 30 interesting values, all chunkings; "
                 "large reads; memory matrix; local commutation step; non-trivial = distinct shape of the reference's event list (kinds of deliveries/ACK/NAK in order)",
         "token_streams": streams, "feeds": feeds, "large_read_cases": lf, "memory_reads": mf,
